@@ -176,3 +176,24 @@ class ShiftScorer(BaseEstimator):
 
     def predict(self, X):
         return self._raw(X) - self.offset_
+
+
+class ExactTableNested(ExactTable):
+    """ExactTable that keeps its fitted table inside a nested container created at construction and updated in
+    place by fit - like a Pipeline or another wrapping estimator, its fitted state is only separated from that of
+    a copy by a *deep* copy."""
+
+    def __init__(self, n_levels=5, tie=0):
+        super().__init__(n_levels=n_levels, tie=tie)
+        self.store = {"table": None}
+
+    def fit(self, X, y, sample_weight=None):
+        ExactTable.fit(self, X, y, sample_weight=sample_weight)
+        self.store["table"] = self.table_.copy()
+        del self.table_
+        return self
+
+    def predict(self, X):
+        from vf.learners import _levels as lv
+
+        return self.store["table"][lv(X)]
